@@ -7,3 +7,4 @@ pub mod engine;
 pub mod gen;
 pub mod known;
 pub mod props;
+pub mod umh;
